@@ -24,10 +24,10 @@ import (
 )
 
 var c19Personalities = []string{"silent", "answers", "inbound-chatty", "alive-after-probe", "reply-outstanding", "outbound-chatty", "answers-then-silent",
-	"own-write-after-each-timeout", "send-inside-probe-window", "alive-after-probe-slow-handler"}
+	"own-write-after-each-timeout", "send-inside-probe-window", "alive-after-probe-slow-handler", "alive-after-probe-answered"}
 
 func TestC19Linktest(t *testing.T) {
-	ev.Rule("(role, threshold 1..4, suppression on/off, interval 40/60/100 ms, T6 50/80 ms) x peer personality: silent; answers every probe; chatty (sends data every interval/2, never answers); alive only after each probe (a data frame 5 ms after every Linktest.req, never answers) - with a data handler that returns at once or only after T6 + 20 ms; reply outstanding (a reply-expected send in flight, peer silent, T3 2 s); local fire-and-forget traffic every interval/2 with a silent peer; answers for a while then falls silent; oracle (virtual time): a dead silent link is dropped at exactly threshold x (interval + T6) after its last sign of life and after exactly `threshold` probes; a link showing life per the suppression rules is never dropped over 6 x that; with suppression no probe is sent while traffic flowed within the last interval or a reply is outstanding; without it one probe per interval and every timeout counts; non-trivial = the personality shows life at least once and the run contains at least one probe timeout")
+	ev.Rule("(role, threshold 1..4, suppression on/off, interval 40/60/100 ms, T6 50/80 ms) x peer personality: silent; answers every probe; chatty (sends data every interval/2, never answers); alive only after each probe (a data frame 5 ms after every Linktest.req, never answers) - with a data handler that returns at once or only after T6 + 20 ms, or with a life frame the library answers (the peer's own Linktest.req / a reply-expected primary); reply outstanding (a reply-expected send in flight, peer silent, T3 2 s); local fire-and-forget traffic every interval/2 with a silent peer; answers for a while then falls silent; oracle (virtual time): a dead silent link is dropped at exactly threshold x (interval + T6) after its last sign of life and after exactly `threshold` probes; a link showing life per the suppression rules is never dropped over 6 x that; with suppression no probe is sent while traffic flowed within the last interval or a reply is outstanding; without it one probe per interval and every timeout counts; non-trivial = the personality shows life at least once and the run contains at least one probe timeout")
 	vt.Bubble(t, func(t *testing.T) {
 		vt.CheckBubble(t, 1500, 60000, func(rt *rapid.T) { runC19(rt) })
 	})
@@ -185,6 +185,43 @@ func runC19(rt *rapid.T) {
 			sawTimeout = true
 		}
 		stop.Store(true)
+	case "alive-after-probe-answered":
+		// the sign of life inside each probe's T6 window is a frame the library ANSWERS (the peer's own
+		// Linktest.req, or a reply-expected primary the application replies to): what the library
+		// itself transmits after that frame must not cancel the credit for having received it
+		showsLife = true
+		asPrimary := rapid.Bool().Draw(rt, "lifeIsPrimary")
+		if asPrimary {
+			w.conn.AddDataMessageHandler(func(m *hsms.DataMessage, ep hsms.SECS2Endpoint) {
+				if m.WaitBit() {
+					_ = ep.ReplyDataMessage(context.Background(), m, secs2.A("alive"))
+				}
+			})
+		}
+		p.SetOnFrame(func(f e37.Frame) {
+			if f.SType == e37.LinktestReq {
+				bg.Add(1)
+				go func() {
+					defer bg.Done()
+					time.Sleep(5 * time.Millisecond)
+					if asPrimary {
+						_ = p.Send(e37.DataFrame(0xffff, 1, 1, true, 0x7200+f.Sys&0xff, nil))
+					} else {
+						_ = p.Send(e37.Control(e37.LinktestReq, 0xffff, 0, 0, 0x7300+f.Sys&0xff))
+					}
+				}()
+			}
+		})
+		if suppress {
+			expectAlive()
+			sawTimeout = len(probeTimes()) > 0
+			if !sawTimeout {
+				fail("no probe was ever sent on an otherwise idle link")
+			}
+		} else {
+			expectDropAt(B, threshold)
+			sawTimeout = true
+		}
 	case "alive-after-probe", "alive-after-probe-slow-handler":
 		showsLife = true
 		if pers == "alive-after-probe-slow-handler" {
